@@ -20,6 +20,9 @@ type Finding struct {
 	Case     string `json:"case"` // recipe text (replayable)
 	Expected string `json:"expected,omitempty"`
 	Observed string `json:"observed,omitempty"`
+	// Sequence: the recipe is several cases to be run one after the other in ONE fresh process;
+	// the finding is about the last one (C09: output depends on what the process did before)
+	Sequence bool `json:"sequence,omitempty"`
 }
 
 type Stats struct {
@@ -106,6 +109,8 @@ func main() {
 		os.Exit(cmdCheck(os.Args[2:]))
 	case "replay":
 		os.Exit(cmdReplay(os.Args[2:]))
+	case "runseq":
+		os.Exit(cmdRunSeq(os.Args[2:]))
 	case "gen":
 		// print generated cases (debugging)
 		fs := flag.NewFlagSet("gen", flag.ExitOnError)
@@ -347,6 +352,9 @@ func cmdReplay(args []string) int {
 	}
 	if text == "" {
 		return 0
+	}
+	if f, ok := rep["finding"].(map[string]interface{}); ok && f["sequence"] == true {
+		return replaySequence(text)
 	}
 	cs, err := ParseCases(text)
 	if err != nil {
